@@ -15,6 +15,16 @@ CLAIMED = {
          "Any accepted instruction statement must decode as exactly one instruction of that mnemonic whose length equals the space reserved in the listing; ill-typed classes must be rejected.", "6 C12"),
  "C13": ("runtime monitoring: livelock detector (repeated loop state) + sys.monitoring step budget + outcome classifier + audit-hook file-effect log",
          "Unbounded termination restated as no-repeated-state and bounded interpreter steps; internal exception classes escaping Program.process or the CLI are violations; CLI diagnostics must exit non-zero and touch no file.", "6 C13"),
+ "C06": ("runtime monitoring: shadow-list conservation check of CassetteFile writer->reader round trips + reference tape generator for foreign streams",
+         "File lists of boundary lengths and marker-dense content are written and listed by the real code and compared with the shadow list; foreign well-formed tapes from an independent generator are listed by the tool.", "6 C06"),
+ "C07": ("runtime monitoring: shadow-list conservation check of DiskFile writer->reader round trips (default and permuted fill orders) + reference filesystem writer for foreign images",
+         "Stored file sequences at granule/sector boundary lengths are read back by the real reader and compared; foreign fsck-clean images with arbitrary chain orders are listed by the tool.", "6 C07"),
+ "C08": ("runtime monitoring: postcondition hook on DiskFile.add_file running an independent Disk BASIC fsck after every addition",
+         "Every image state reached by the workload is checked against all structural clauses of the property by a reference fsck.", "6 C08"),
+ "C14": ("runtime monitoring: postcondition hook on CassetteFile.add_file parsing every appended region with a strict checksum-verifying reference parser",
+         "Every region appended by the real writer must parse as exactly one well-formed file equal to the argument.", "6 C06/C14"),
+ "C15": ("runtime monitoring: history invariant at DiskFile.add_file (free-granule / slot accounting vs shadow free sets) over fill-to-exhaustion histories + audit-hook check of failing host saves",
+         "Fit/no-fit, granules used and slots consumed are judged on every addition of histories that drive images to exhaustion; all 72 single-free-slot directory states are enumerated; failing CLI saves must leave the host file untouched.", "6 C15"),
 }
 LEVEL_NOTE = ("Trusted base: the harness's reference models under vlib/ref (self-tested), CPython's sys.addaudithook / sys.monitoring, and the "
               "generators' reach (form catalogue, boundary sets, seeds). Holds only for the executions actually produced; see DESIGN.md sections 1 and 11.")
